@@ -116,6 +116,23 @@ Example C09_example :
   snd (run bhandler (ovl_exists (v0, []) [(v1, [])] [[104%N]]) (mstore2 s0 s1 [] [] None)) = Ok false.
 Proof. vm_compute. repeat split; reflexivity. Qed.
 
+(** creating a top-level entry that exists in no layer: it appears in the write layer with nothing in
+    it, no other entry of either layer changes (C01's create contracts relative to the union) *)
+Theorem C09_create_fresh_dir : forall lg ft (s0 s1 : mstate) hs (n : list N),
+  wf s0 -> s0 !! whiteout_path (v0, []) [] = None -> s0 !! whiteout_path (v0, []) [n] = None ->
+  s0 !! [n] = None -> s1 !! [n] = None ->
+  run bhandler (ovl_impl (v0, []) [(v1, [])] (CCreateDir [n])) (mstore2 s0 s1 hs lg ft) =
+  (mstore2 (<[[n] := mkMemFile Dir [] TAuto (Some TAuto) (Some TAuto)]> s0) s1 hs lg ft, Ok tt).
+Proof. exact create_fresh_dir. Qed.
+
+Theorem C09_create_fresh_file : forall lg ft (s0 s1 : mstate) hs (n : list N),
+  wf s0 -> s0 !! whiteout_path (v0, []) [] = None -> s0 !! whiteout_path (v0, []) [n] = None ->
+  s0 !! [n] = None -> s1 !! [n] = None ->
+  run bhandler (ovl_impl (v0, []) [(v1, [])] (CCreateFile [n])) (mstore2 s0 s1 hs lg ft) =
+  (mstore2 (<[[n] := mkMemFile File [] TAuto (Some TAuto) (Some TAuto)]> s0) s1 (hs ++ [HMemWriter 0 [n] [] 0]) lg ft,
+   Ok (length hs)).
+Proof. exact create_fresh_file. Qed.
+
 (** KNOWN FINDING (D28), kept visible: "the union behaves as an ordinary tree" is false of the faithful
     model when a name ends in the marker suffix.  The marker of /a is the FILE /.whiteout/a_wo, the
     markers of the children of a directory /a_wo live in the DIRECTORY /.whiteout/a_wo: removing
@@ -149,3 +166,5 @@ Print Assumptions C09_create_over_lower_entry.
 Print Assumptions C09_remove_dir_with_lower_children.
 Print Assumptions C09_append_continues_lower_bytes.
 Print Assumptions C09_marker_collision_witness.
+Print Assumptions C09_create_fresh_dir.
+Print Assumptions C09_create_fresh_file.
